@@ -47,7 +47,7 @@ checks = {
    note="Server states are a finite family; quick strides bit flips by 7 for the two largest replies.", ref="3 C10"),
  "C11": dict(engine="E4", cat="exploration", tech="exhaustive enumeration of reply shapes (every length 0..800, rogue-signed bodies) and of per-attempt outcome sequences of the sync round on the real client",
    text="(a) ~5000 reply shapes - every length as zeros, cut genuine reply, short read, bodies signed with the contacted server's real key - against the real parser: no panic, mutex free, state unchanged. (b) every sequence of per-attempt outcomes for 1..3 servers with none/one/all banned through the real sync round, then a send-loop tick, a second round and a restart: mutex free, reports still emitted, banned servers never contacted, bans never forgotten or lost on restart.",
-   note="Delays are represented by refusal/reset (virtual time); Go map order inside the client is observed, not controlled. Static lock-balance analysis (E5 of the design) was not built.", ref="3 C11"),
+   note="Delays are represented by refusal/reset (virtual time); Go map order inside the client is observed, not controlled. Includes the static lock-path search (vlock) over package client and glow.", ref="3 C11"),
  "C12": dict(engine="E4", cat="exploration", tech="exhaustive enumeration of a request grid (handlers x methods x query/body variants, sync requests, datagram alphabet) over clock configurations on the real server; shutdown scenarios on real sockets",
    text="Per clock configuration, with an authorized peer that is down: every handler x {GET, POST, PUT} x query/body variants through the server's own mux, sync requests of 0..4 bytes, the C01 datagram alphabet, an impact round and a rotation; after each one both mutexes must be free and a probe request must answer. Close() with 0/1/3 idle or half-sent TCP connections must return within 4x serverShutdownTime (violation only with a goroutine dump showing the blocked handler).",
    note="/geo-stats only up to parameter validation; production-only WattTime paths cannot run offline; net/http internals trusted.", ref="3 C12"),
@@ -87,6 +87,7 @@ m = {
   {"name":"E2 seqmc","path":"harness/cmd/vcheck/bfs.go, bfspool.go, opsworld.go, model.go","serves_properties":["C02","C03","C04","C06","C07","C08","C09","C17","C18","C19"],"kind_free_text":E2},
   {"name":"E3 crash","path":"harness/shim/vos, harness/cmd/vcheck/c05.go","serves_properties":["C05"],"kind_free_text":E3},
   {"name":"E4 enum","path":"harness/cmd/vcheck/c01.go and friends","serves_properties":["C01","C10","C11","C12","C15","C16","C20"],"kind_free_text":E4},
+  {"name":"E5 vlock","path":"harness/vlock","serves_properties":["C11","C13"],"kind_free_text":"explicit-state search over (basic block x held-lock set x pending defers) of every locking function on go/ssa of the current tree"},
  ],
  "checks": [],
  "notes": "All checks run the real code (recompiled with shimmed imports) and rebuild from /repo's working tree on every invocation. Known findings: /verif/known_findings.json.",
